@@ -32,6 +32,7 @@ def run(model, rep, tier):
     A(lambda: sysrules.row_assembly(model, rep, sysrules.roles(model), "R3", ["Phase", "Power (W)", "Warnings", "24h energy (Wh)"]))
     A(sysrules.phase_param_rule, model, rep)
     A(sysrules.set_sys_phases_rule, model, rep, "R5")
+    A(sysrules.name_containment_rule, model, rep, "R5", {"phases"}, "phase")
 
 
 def r2_nopc(model, rep):
